@@ -291,6 +291,10 @@ for _pid in ('C04', 'C05', 'C07'):
 for _pid in ('C06', 'C01'):
     if 'OtterVerif.Props.C06All' not in PROPS[_pid]['modules']:
         PROPS[_pid]['modules'].append('OtterVerif.Props.C06All')
+# table and size policy jointly over every sequential history: mapped <=> introduced and alive is an invariant; bound after every operation
+for _pid in ('C04', 'C05', 'C07'):
+    if 'OtterVerif.Props.C04Joint' not in PROPS[_pid]['modules']:
+        PROPS[_pid]['modules'].append('OtterVerif.Props.C04Joint')
 for _pid, _mods in PINS.items():
     for _m in _mods:
         _name = 'OtterVerif.Pin.' + _m
